@@ -10,6 +10,8 @@ CONSTANTS
   ReverseViewCached = FALSE
   AliasBoundToFirstObject = TRUE
   ShallowCopy = FALSE
+  ViewReplacesEmptyIndex = FALSE
+  WatchParts = FALSE
   SrcSteps = 0
   Emit = FALSE
 SPECIFICATION Spec
